@@ -206,7 +206,10 @@ pub fn convert_amount<'ctx>(
     date: NaiveDate,
 ) -> Result<Amount<'ctx>, ConversionError<'ctx>> {
     let mut result = Amount::zero();
-    for v in amount.iter() {
+    // visit commodities in a stable order, so that the reported failure doesn't depend on hash order.
+    let mut values: Vec<SingleAmount<'ctx>> = amount.iter().collect();
+    values.sort_unstable_by_key(|v| v.commodity.as_str());
+    for v in values {
         result += price_repos.convert_single(v, commodity_with, date)?;
     }
     Ok(result)
@@ -315,10 +318,14 @@ impl<'ctx> NaivePriceRepository<'ctx> {
                     continue;
                 }
             }
-            for (j, Entry(source, rates)) in match self.records.get(&prev) {
+            // visit neighbors in a stable order, so that ties between equally good chains
+            // are always resolved in the same way regardless of hash order.
+            let mut neighbors: Vec<(&Commodity<'ctx>, &Entry)> = match self.records.get(&prev) {
                 None => continue,
-                Some(x) => x,
-            } {
+                Some(x) => x.iter().collect(),
+            };
+            neighbors.sort_unstable_by_key(|(j, _)| j.as_str());
+            for (j, Entry(source, rates)) in neighbors {
                 let bound = rates.partition_point(|(record_date, _)| record_date <= &date);
                 log::debug!(
                     "found next commodity {} with date bound {}",
